@@ -264,4 +264,27 @@ theorem popLines_comments (C : Codec F) (cs : List (List String)) (ls : List Lin
       simp only [show ¬ ("/*" = "genomestart") by decide, show ¬ ("/*" = "genomeend") by decide, if_false, if_true]
       exact ih (fun c' hc' => hne c' (List.mem_cons_of_mem _ hc'))
 
+/-! ### whole genome -/
+
+theorem parse_render_aux (C : Codec F) (hF : FloatsRoundTrip C) (hA : ActsRoundTrip C) (g : Genome F)
+    (h : WFio C g = true) : parse C (render C g) = .ok g := by
+  simp only [WFio, Bool.and_eq_true, decide_eq_true_eq, List.all_eq_true, beq_iff_eq, bne_iff_ne, ne_eq,
+    List.isEmpty_iff] at h
+  obtain ⟨⟨⟨⟨⟨htr, hndT⟩, hndN⟩, hnodes⟩, hgenes⟩, hmods⟩ := h
+  unfold parse render
+  simp only [parseLines, step_startLine]
+  rw [parseLines_append, parseLines_traits C hF g.traits {} (fun t ht => (htr t ht).1) (by simpa using hndT)]
+  simp only [List.nil_append]
+  rw [parseLines_append, parseLines_nodes C hA g.nodes _ (by simpa using hnodes) (by simpa using hndN)]
+  simp only [List.nil_append]
+  rw [parseLines_append, parseLines_genes C hF g.genes _ (by simpa using hgenes)]
+  simp only [List.nil_append, parseLines, step_endLine, St.toGenome]
+  cases g
+  simp_all
+
+
+theorem readGenome_render_aux (C : Codec F) (hF : FloatsRoundTrip C) (hA : ActsRoundTrip C) (g : Genome F)
+    (h : WFio C g = true) : readGenome C (render C g) g.id = .ok g := by
+  simp [readGenome, parse_render_aux C hF hA g h]
+
 end GoNeat.PlainIO
